@@ -461,11 +461,9 @@ theorem collected_is_queued (c : Cfg) (hk : c.keepOnNone = true) (nodes : List (
   rw [this, g1, e1]
 
 
-/-- **`seq_increasing_partial`** = `subTick_seq`: per subscription the queued notifications always carry
-consecutive sequence numbers ending at the last one handed out, every tick only appends the successor,
-and (`pairUp_msgs`) they leave oldest first — so the sequence numbers a client sees per subscription
-increase by one.  Missing for the full statement: the composition of these per-subscription facts into
-an invariant over whole session histories (the per-subscription "last emitted" ghost). -/
+/-- `seq_increasing_partial` = `subTick_seq`: the per-tick form of the sequence-number invariant (queued
+notifications carry consecutive numbers, a tick only appends the successor).  Superseded by
+`seq_increasing` below, which states the property on the `sent` log of whole histories. -/
 theorem seq_increasing_partial (c : Cfg) (nodes : List (Nat × Nat)) (now : Nat) (t rq : Bool) (s s' : Subn)
     (hi : SeqInv s) (h : subTick c nodes now t rq s = .ok s') : SeqInv s' :=
   subTick_seq c nodes now t rq s s' hi h
@@ -959,6 +957,644 @@ theorem delivery_exact_flow (c : Cfg) (maxQ : Nat) (sid : Nat) (ops : List Op) (
       obtain ⟨l2, e2⟩ := ih g1 (fun hm => hd (List.mem_cons_of_mem _ hm)) h
       exact ⟨l1 ++ l2, by rw [e2, e1, List.append_assoc]⟩
     · cases h
+
+
+/-! ### sequence numbers over whole histories -/
+
+/-- the sequence-number part of what `handle_state_result` is entered with -/
+def NumPre (s : Subn) (n : Option Msg) : Prop :=
+  match n with
+  | none => s.seqNext = s.lastSeq + 1
+  | some m => m.seq = s.lastSeq + 1 ∧ s.seqNext = m.seq + 1
+
+/-- a step leaves the queue alone or appends one message carrying the next sequence number -/
+def Grow (s s' : Subn) : Prop :=
+  s'.id = s.id ∧ s'.seqNext = s'.lastSeq + 1 ∧
+  ((s'.notifs = s.notifs ∧ s'.lastSeq = s.lastSeq) ∨
+   (∃ m, s'.notifs = s.notifs ++ [m] ∧ m.seq = s.lastSeq + 1 ∧ s'.lastSeq = s.lastSeq + 1))
+
+theorem enqueue_grow (s0 s s' : Subn) (m : Msg) (hi : s.id = s0.id) (hn : s.notifs = s0.notifs)
+    (hl : s.lastSeq = s0.lastSeq) (hs : s.seqNext = m.seq + 1) (h : enqueueNotification s m = .ok s') :
+    Grow s0 s' := by
+  unfold enqueueNotification at h
+  split at h
+  · cases h
+  · rename_i hne
+    cases h
+    refine ⟨hi, by simp [hs], Or.inr ⟨m, by simp [hn], by omega, by simp; omega⟩⟩
+
+theorem handleStateResult_grow (c : Cfg) (now : Nat) (s s' : Subn) (a : Action) (n : Option Msg)
+    (hp : NumPre s n) (h : handleStateResult c now s a n = .ok s') : Grow s s' := by
+  cases a with
+  | none =>
+    cases n with
+    | none => simp only [handleStateResult] at h; cases h; exact ⟨rfl, hp, Or.inl ⟨rfl, rfl⟩⟩
+    | some m =>
+      simp only [handleStateResult] at h
+      simp only [NumPre] at hp
+      split at h
+      · exact enqueue_grow s s s' m rfl rfl rfl hp.2 h
+      · cases h; exact ⟨rfl, by simp [hp.1], Or.inl ⟨rfl, rfl⟩⟩
+  | keepAlive =>
+    cases n with
+    | none => simp only [handleStateResult] at h; refine enqueue_grow s _ s' _ ?_ ?_ ?_ ?_ h <;> rfl
+    | some m => simp only [handleStateResult] at h; refine enqueue_grow s _ s' _ ?_ ?_ ?_ ?_ h <;> rfl
+  | notifications =>
+    cases n with
+    | none => simp only [handleStateResult] at h; cases h; exact ⟨rfl, hp, Or.inl ⟨rfl, rfl⟩⟩
+    | some m =>
+      simp only [handleStateResult] at h
+      simp only [NumPre] at hp
+      exact enqueue_grow s s s' m rfl rfl rfl hp.2 h
+  | created =>
+    cases n with
+    | none => simp only [handleStateResult] at h; cases h; exact ⟨rfl, hp, Or.inl ⟨rfl, rfl⟩⟩
+    | some m => simp [handleStateResult] at h
+  | expired =>
+    cases n with
+    | none => simp only [handleStateResult] at h; refine enqueue_grow s _ s' _ ?_ ?_ ?_ ?_ h <;> rfl
+    | some m =>
+      simp only [handleStateResult] at h
+      split at h
+      · refine enqueue_grow s _ s' _ ?_ ?_ ?_ ?_ h <;> rfl
+      · cases h
+
+theorem elapsedStep_nums (now : Nat) (t : Bool) (s : Subn) :
+    (elapsedStep now t s).1.notifs = s.notifs ∧ (elapsedStep now t s).1.id = s.id ∧
+    (elapsedStep now t s).1.lastSeq = s.lastSeq ∧ (elapsedStep now t s).1.seqNext = s.seqNext := by
+  unfold elapsedStep
+  split
+  · simp
+  · split
+    · simp
+    · split
+      · simp
+      · split <;> simp
+
+theorem collectStep_nums (nodes : List (Nat × Nat)) (now : Nat) (el : Bool) (s : Subn)
+    (h : s.seqNext = s.lastSeq + 1) :
+    (collectStep nodes now el s).1.notifs = s.notifs ∧ (collectStep nodes now el s).1.id = s.id ∧
+    (collectStep nodes now el s).1.lastSeq = s.lastSeq ∧
+    NumPre (collectStep nodes now el s).1 (collectStep nodes now el s).2 := by
+  unfold collectStep
+  split
+  · exact ⟨rfl, rfl, rfl, h⟩
+  · simp only []
+    split
+    · exact ⟨rfl, rfl, rfl, h⟩
+    · exact ⟨rfl, rfl, rfl, by simp [NumPre, h]⟩
+
+/-- one tick of a subscription leaves its queue alone or appends one message with the next sequence
+number; the counters stay in step -/
+theorem subTick_grow (c : Cfg) (nodes : List (Nat × Nat)) (now : Nat) (t rq : Bool) (s s' : Subn)
+    (hs : s.seqNext = s.lastSeq + 1) (h : subTick c nodes now t rq s = .ok s') : Grow s s' := by
+  unfold subTick at h
+  simp only [] at h
+  obtain ⟨a1, a2, a3, a4⟩ := elapsedStep_nums now t s
+  obtain ⟨b1, b2, b3, b4⟩ := collectStep_nums nodes now (elapsedStep now t s).2 (elapsedStep now t s).1
+    (by rw [a4, a3]; exact hs)
+  generalize collectStep nodes now (elapsedStep now t s).2 (elapsedStep now t s).1 = cs at h b1 b2 b3 b4
+  obtain ⟨s2, n⟩ := cs
+  simp only [] at h b1 b2 b3 b4
+  have lift : ∀ u : Subn, u.id = s2.id → u.notifs = s2.notifs → u.lastSeq = s2.lastSeq → Grow u s' → Grow s s' := by
+    intro u h1 h2 h3 hg
+    obtain ⟨g1, g2, g3⟩ := hg
+    refine ⟨by rw [g1, h1, b2, a2], g2, ?_⟩
+    rcases g3 with ⟨e1, e2⟩ | ⟨m, e1, e2, e3⟩
+    · exact Or.inl ⟨by rw [e1, h2, b1, a1], by rw [e2, h3, b3, a3]⟩
+    · exact Or.inr ⟨m, by rw [e1, h2, b1, a1], by rw [e2, h3, b3, a3], by rw [e3, h3, b3, a3]⟩
+  split at h
+  · have hf := fun p => updateState_frame c s2 (!t) p
+    refine lift _ (hf _).2.2.2.2.2 (hf _).1 (hf _).2.1 (handleStateResult_grow c now _ s' _ n ?_ h)
+    cases n with
+    | none => simp only [NumPre] at b4 ⊢; rw [(hf _).2.2.1, (hf _).2.1]; exact b4
+    | some m => simp only [NumPre] at b4 ⊢; rw [(hf _).2.2.1, (hf _).2.1]; exact b4
+  · have e : s2 = s' := by cases h; rfl
+    subst e
+    cases n with
+    | none => exact lift s2 rfl rfl rfl ⟨rfl, b4, Or.inl ⟨rfl, rfl⟩⟩
+    | some m => rename_i hc; simp at hc
+
+theorem chain_append_iff (a : Nat) (x y : List Nat) :
+    chain a (x ++ y) ↔ chain a x ∧ chain (a + x.length) y := by
+  induction x generalizing a with
+  | nil => simp [chain]
+  | cons b bs ih =>
+    simp only [List.cons_append, chain, List.length_cons, ih]
+    constructor
+    · rintro ⟨h1, h2, h3⟩; subst h1; exact ⟨⟨rfl, h2⟩, by rw [show a + (bs.length + 1) = a + 1 + bs.length by omega]; exact h3⟩
+    · rintro ⟨⟨h1, h2⟩, h3⟩; subst h1; exact ⟨rfl, h2, by rw [show a + 1 + bs.length = a + (bs.length + 1) by omega]; exact h3⟩
+
+/-- the numbering invariant of subscription `sid` inside a tick; `pre` = what already left the
+subscription and the transmission queue (sent and queued responses) -/
+def Num (pre : List Msg) (ss : Sess) (trans : List (Nat × Req × Msg)) (sid : Nat) : Prop :=
+  chain 0 ((pre ++ pend ss trans sid).map (·.seq)) ∧
+  ∀ s, getSub ss.subs sid = some s → (pre ++ pend ss trans sid).length = s.lastSeq ∧ s.seqNext = s.lastSeq + 1
+
+/-- the subscriptions after one subscription was visited (as written in `visit`) -/
+def stepSubs (subs : List Subn) (id : Nat) (s1 : Subn) (ms : List Msg) : List Subn :=
+  if s1.state = SState.closed ∧ ms.isEmpty = true then subs.filter (fun t => t.id ≠ id)
+  else updSub subs { s1 with notifs := ms }
+
+def stepSess (ss : Sess) (reqs : List Req) (subs' : List Subn) : Sess := { ss with reqs := reqs, subs := subs' }
+
+theorem visit_num (c : Cfg) (t : Bool) (sid : Nat) (pre : List Msg) (ids : List Nat) (ss ss' : Sess)
+    (trans trans' : List (Nat × Req × Msg)) (h : visit c t ids ss trans = .ok (ss', trans'))
+    (hn : Num pre ss trans sid) :
+    Num pre ss' trans' sid ∧
+    (getSub ss.subs sid = none → getSub ss'.subs sid = none ∧ pend ss' trans' sid = pend ss trans sid) := by
+  induction ids generalizing ss trans with
+  | nil => simp only [visit] at h; cases h; exact ⟨hn, fun h => ⟨h, rfl⟩⟩
+  | cons id ids ih =>
+    simp only [visit] at h
+    split at h
+    · cases h
+    · rename_i s hs
+      split at h
+      · cases h
+      · rename_i s1 h1
+        have hid : s.id = id := getSub_id _ _ _ hs
+        have hhas : hasSub ss.subs id = true := by
+          cases hh : hasSub ss.subs id with
+          | true => rfl
+          | false => rw [(getSub_none_iff _ _).mpr hh] at hs; cases hs
+        have hpu := pairUp_transMsgs id sid ss.reqs s1.notifs trans
+        have i1 : s1.id = s.id := (subTick_appends c _ _ _ _ s s1 h1).choose_spec.2
+        have h' : visit c t ids (stepSess ss (pairUp id ss.reqs s1.notifs trans).1
+            (stepSubs ss.subs id s1 (pairUp id ss.reqs s1.notifs trans).2.1))
+            (pairUp id ss.reqs s1.notifs trans).2.2 = .ok (ss', trans') := h
+        by_cases hsid : sid = id
+        · subst hsid
+          obtain ⟨hc, hl⟩ := hn
+          obtain ⟨hlen, hsn⟩ := hl s hs
+          obtain ⟨g1, g2, g3⟩ := subTick_grow c ss.nodes ss.now t (!ss.reqs.isEmpty) s s1 hsn h1
+          have hn0 : notifsOf ss.subs sid = s.notifs := by simp [notifsOf, hs]
+          simp only [if_true] at hpu
+          have hno : notifsOf (stepSubs ss.subs sid s1 (pairUp sid ss.reqs s1.notifs trans).2.1) sid
+              = (pairUp sid ss.reqs s1.notifs trans).2.1 := by
+            unfold stepSubs
+            split
+            · rename_i hcl
+              rw [notifsOf_filter_ne]; simp only [if_true]
+              exact (List.isEmpty_iff.mp hcl.2).symm
+            · rw [notifsOf_updSub]; simp [g1, hid, hhas]
+          have hget : ∀ u, getSub (stepSubs ss.subs sid s1 (pairUp sid ss.reqs s1.notifs trans).2.1) sid = some u →
+              u.lastSeq = s1.lastSeq ∧ u.seqNext = s1.seqNext := by
+            intro u hu
+            unfold stepSubs at hu
+            split at hu
+            · rw [getSub_filter_ne] at hu; simp at hu
+            · rw [getSub_updSub] at hu
+              simp only [g1, hid, if_true, hhas] at hu
+              cases hu; exact ⟨rfl, rfl⟩
+          have hp : pend (stepSess ss (pairUp sid ss.reqs s1.notifs trans).1
+              (stepSubs ss.subs sid s1 (pairUp sid ss.reqs s1.notifs trans).2.1))
+              (pairUp sid ss.reqs s1.notifs trans).2.2 sid = transMsgs trans sid ++ s1.notifs := by
+            simp only [pend, stepSess]; rw [hno, hpu]
+          simp only [pend, hn0] at hc hlen
+          have hstep : Num pre (stepSess ss (pairUp sid ss.reqs s1.notifs trans).1
+              (stepSubs ss.subs sid s1 (pairUp sid ss.reqs s1.notifs trans).2.1))
+              (pairUp sid ss.reqs s1.notifs trans).2.2 sid := by
+            rw [Num, hp]
+            rcases g3 with ⟨e1, e2⟩ | ⟨m, e1, e2, e3⟩
+            · refine ⟨by rw [e1]; exact hc, fun u hu => ?_⟩
+              obtain ⟨u1, u2⟩ := hget u hu
+              rw [u1, u2, e1, e2]; exact ⟨hlen, by rw [← e2]; exact g2⟩
+            · have hre : pre ++ (transMsgs trans sid ++ (s.notifs ++ [m])) =
+                  (pre ++ (transMsgs trans sid ++ s.notifs)) ++ [m] := by simp
+              refine ⟨?_, fun u hu => ?_⟩
+              · rw [e1, hre, List.map_append, chain_append_iff]
+                refine ⟨hc, ?_⟩
+                simp only [List.map_cons, List.map_nil, chain, and_true, List.length_map]
+                rw [hlen, e2]; omega
+              · obtain ⟨u1, u2⟩ := hget u hu
+                rw [u1, u2, e1]
+                refine ⟨?_, g2⟩
+                rw [hre, List.length_append, hlen, e3]; simp
+          obtain ⟨r1, r2⟩ := ih _ _ h' hstep
+          exact ⟨r1, fun hnone => by rw [hs] at hnone; cases hnone⟩
+        · -- another subscription is visited: nothing of `sid` changes
+          simp only [hsid, if_false, List.append_nil] at hpu
+          have hne : ¬ sid = s1.id := by rw [i1, hid]; exact hsid
+          have hget : getSub (stepSubs ss.subs id s1 (pairUp id ss.reqs s1.notifs trans).2.1) sid
+              = getSub ss.subs sid := by
+            unfold stepSubs
+            split
+            · rw [getSub_filter_ne]; simp [hsid]
+            · rw [getSub_updSub]; simp [hne]
+          have hpend : pend (stepSess ss (pairUp id ss.reqs s1.notifs trans).1
+              (stepSubs ss.subs id s1 (pairUp id ss.reqs s1.notifs trans).2.1))
+              (pairUp id ss.reqs s1.notifs trans).2.2 sid = pend ss trans sid := by
+            simp only [pend, notifsOf, stepSess]
+            rw [hget, hpu]
+          have hstep : Num pre (stepSess ss (pairUp id ss.reqs s1.notifs trans).1
+              (stepSubs ss.subs id s1 (pairUp id ss.reqs s1.notifs trans).2.1))
+              (pairUp id ss.reqs s1.notifs trans).2.2 sid := by
+            rw [Num, hpend]
+            exact ⟨hn.1, fun u hu => hn.2 u (by rw [← hget]; exact hu)⟩
+          obtain ⟨r1, r2⟩ := ih _ _ h' hstep
+          refine ⟨r1, fun hnone => ?_⟩
+          obtain ⟨q1, q2⟩ := r2 (by show getSub (stepSubs ss.subs id s1 _) sid = none; rw [hget]; exact hnone)
+          exact ⟨q1, by rw [q2, hpend]⟩
+
+/-- the numbering invariant of subscription `sid` between ticks; `pre` = what was handed to the transport -/
+def NumS (pre : List Msg) (ss : Sess) (sid : Nat) : Prop :=
+  chain 0 ((pre ++ inSess ss sid).map (·.seq)) ∧
+  ∀ s, getSub ss.subs sid = some s → (pre ++ inSess ss sid).length = s.lastSeq ∧ s.seqNext = s.lastSeq + 1
+
+theorem sessTick_num (c : Cfg) (t : Bool) (ss ss' : Sess) (sid : Nat) (pre : List Msg)
+    (h : sessTick c t ss = .ok ss') (hn : NumS pre ss sid) :
+    NumS pre ss' sid ∧
+    (getSub ss.subs sid = none → getSub ss'.subs sid = none ∧ inSess ss' sid = inSess ss sid) := by
+  unfold sessTick at h
+  split at h
+  · cases h
+  · rename_i s1 trans hv
+    cases h
+    have hn0 : Num (pre ++ respMsgs ss.resps sid) ss [] sid := by
+      obtain ⟨c1, c2⟩ := hn
+      simp only [inSess] at c1 c2
+      refine ⟨by simpa [pend, transMsgs, List.append_assoc] using c1, fun s hs => ?_⟩
+      have := c2 s hs
+      simpa [pend, transMsgs, List.append_assoc] using this
+    obtain ⟨⟨d1, d2⟩, d3⟩ := visit_num c t sid _ _ ss s1 [] trans hv hn0
+    obtain ⟨f1, f2⟩ := transmit_flow trans s1 sid
+    have hr : s1.resps = ss.resps := (visit_flow c t sid _ ss s1 [] trans hv).2
+    have hin : inSess { transmit trans s1 with retrans := cleanup (transmit trans s1).subs (transmit trans s1).retrans } sid
+        = respMsgs ss.resps sid ++ pend s1 trans sid := by
+      simp only [inSess, pend]
+      rw [f1, f2, hr, List.append_assoc]
+    refine ⟨⟨?_, fun s hs => ?_⟩, fun hnone => ?_⟩
+    · rw [hin, ← List.append_assoc]; exact d1
+    · rw [hin, ← List.append_assoc]
+      exact d2 s (by simpa [f2] using hs)
+    · obtain ⟨q1, q2⟩ := d3 hnone
+      refine ⟨by simpa [f2] using q1, ?_⟩
+      rw [hin, q2]
+      simp [pend, transMsgs, inSess]
+
+theorem publish_num (c : Cfg) (ss ss' : Sess) (rid : Nat) (acks : Option (List (Nat × Nat))) (res : PubRes)
+    (sid : Nat) (pre : List Msg) (h : publish c ss rid acks = .ok (ss', res)) (hn : NumS pre ss sid) :
+    NumS pre ss' sid ∧
+    (getSub ss.subs sid = none → getSub ss'.subs sid = none ∧ inSess ss' sid = inSess ss sid) := by
+  unfold publish at h
+  split at h
+  · cases h; exact ⟨hn, fun h => ⟨h, rfl⟩⟩
+  · simp only [] at h
+    split at h
+    · cases h
+    · rename_i s1 hpre
+      have h1 : NumS pre s1 sid ∧
+          (getSub ss.subs sid = none → getSub s1.subs sid = none ∧ inSess s1 sid = inSess ss sid) := by
+        split at hpre
+        · exact sessTick_num c false ss s1 sid pre hpre hn
+        · cases hpre; exact ⟨hn, fun h => ⟨h, rfl⟩⟩
+      obtain ⟨n1, k1⟩ := h1
+      split at h
+      · cases h; exact ⟨n1, k1⟩
+      · split at h
+        · cases h
+        · rename_i s2 ht
+          cases h
+          have hmid : ∀ (rt : List ((Nat × Nat) × Msg)) (rq : List Req),
+              NumS pre { s1 with retrans := rt, reqs := rq } sid := fun _ _ => n1
+          cases acks with
+          | none =>
+            obtain ⟨n2, k2⟩ := sessTick_num c false _ _ sid pre ht (hmid _ _)
+            refine ⟨n2, fun hnone => ?_⟩
+            obtain ⟨a1, a2⟩ := k1 hnone
+            obtain ⟨b1, b2⟩ := k2 a1
+            exact ⟨b1, by rw [b2]; exact a2⟩
+          | some as =>
+            obtain ⟨n2, k2⟩ := sessTick_num c false _ _ sid pre ht (hmid _ _)
+            refine ⟨n2, fun hnone => ?_⟩
+            obtain ⟨a1, a2⟩ := k1 hnone
+            obtain ⟨b1, b2⟩ := k2 a1
+            exact ⟨b1, by rw [b2]; exact a2⟩
+
+theorem visit_next (c : Cfg) (t : Bool) (ids : List Nat) (ss ss' : Sess)
+    (trans trans' : List (Nat × Req × Msg)) (h : visit c t ids ss trans = .ok (ss', trans')) :
+    ss'.nextSubId = ss.nextSubId := by
+  induction ids generalizing ss trans with
+  | nil => simp only [visit] at h; cases h; rfl
+  | cons id ids ih =>
+    simp only [visit] at h
+    split at h
+    · cases h
+    · split at h
+      · cases h
+      · simpa using ih _ _ h
+
+theorem transmit_next (trans : List (Nat × Req × Msg)) (ss : Sess) :
+    (transmit trans ss).nextSubId = ss.nextSubId := by
+  induction trans generalizing ss with
+  | nil => rfl
+  | cons x rest ih => obtain ⟨a, b, c⟩ := x; simp only [transmit]; rw [ih]
+
+theorem sessTick_next (c : Cfg) (t : Bool) (ss ss' : Sess) (h : sessTick c t ss = .ok ss') :
+    ss'.nextSubId = ss.nextSubId := by
+  unfold sessTick at h
+  split at h
+  · cases h
+  · rename_i s1 trans hv
+    cases h
+    simp only [transmit_next]
+    exact visit_next c t _ ss s1 [] trans hv
+
+theorem publish_next (c : Cfg) (ss ss' : Sess) (rid : Nat) (acks : Option (List (Nat × Nat))) (res : PubRes)
+    (h : publish c ss rid acks = .ok (ss', res)) : ss'.nextSubId = ss.nextSubId := by
+  unfold publish at h
+  split at h
+  · cases h; rfl
+  · simp only [] at h
+    split at h
+    · cases h
+    · rename_i s1 hpre
+      have h1 : s1.nextSubId = ss.nextSubId := by
+        split at hpre
+        · exact sessTick_next c false ss s1 hpre
+        · cases hpre; rfl
+      split at h
+      · cases h; exact h1
+      · split at h
+        · cases h
+        · rename_i s2 ht
+          cases h
+          rw [sessTick_next c false _ _ ht]
+          cases acks <;> exact h1
+
+/-- the invariant of a whole session history -/
+def INV (g : G) : Prop :=
+  (∀ sid, NumS (sentMsgs g.sent sid) g.ss sid) ∧
+  (∀ sid, g.ss.nextSubId ≤ sid → getSub g.ss.subs sid = none ∧ flow g sid = [])
+
+theorem getSub_append_new (subs : List Subn) (s : Subn) (sid : Nat) :
+    getSub (subs ++ [s]) sid = (getSub subs sid).or (if s.id = sid then some s else none) := by
+  unfold getSub
+  rw [List.find?_append]
+  by_cases h : s.id = sid <;> simp [List.find?_cons, h]
+
+/-- an operation that changes neither the queues nor the counters of any subscription keeps the invariant -/
+theorem INV_of_frame (g : G) (ss' : Sess) (hi : INV g)
+    (h1 : ∀ sid, inSess ss' sid = inSess g.ss sid)
+    (h2 : ∀ sid s', getSub ss'.subs sid = some s' →
+      ∃ s, getSub g.ss.subs sid = some s ∧ s'.lastSeq = s.lastSeq ∧ s'.seqNext = s.seqNext)
+    (h3 : ∀ sid, getSub g.ss.subs sid = none → getSub ss'.subs sid = none)
+    (h4 : ss'.nextSubId = g.ss.nextSubId) : INV { g with ss := ss' } := by
+  obtain ⟨i1, i2⟩ := hi
+  refine ⟨fun sid => ?_, fun sid hle => ?_⟩
+  · obtain ⟨c1, c2⟩ := i1 sid
+    refine ⟨by simp only []; rw [h1]; exact c1, fun s' hs' => ?_⟩
+    obtain ⟨s, e1, e2, e3⟩ := h2 sid s' hs'
+    simp only []
+    rw [h1, e2, e3]; exact c2 s e1
+  · obtain ⟨f1, f2⟩ := i2 sid (by rw [← h4]; exact hle)
+    refine ⟨h3 sid f1, ?_⟩
+    rw [flow_eq] at f2 ⊢
+    simp only []
+    rw [h1]; exact f2
+
+theorem chain_prefix (a : Nat) (x y : List Nat) (h : chain a (x ++ y)) : chain a x :=
+  ((chain_append_iff a x y).mp h).1
+
+theorem gstep_INV (c : Cfg) (maxQ : Nat) (g g' : G) (op : Op) (hi : INV g)
+    (h : gstep c maxQ g op = some g') : INV g' := by
+  cases op with
+  | createSub p i k l e =>
+    simp only [gstep] at h; cases h
+    obtain ⟨i1, i2⟩ := hi
+    have hin : ∀ sid, inSess (createSub g.ss p i k l e).1 sid = inSess g.ss sid := by
+      intro sid; simp only [inSess, createSub]; rw [notifsOf_append_new _ _ rfl]
+    refine ⟨fun sid => ?_, fun sid hle => ?_⟩
+    · obtain ⟨c1, c2⟩ := i1 sid
+      refine ⟨by simp only []; rw [hin]; exact c1, fun s' hs' => ?_⟩
+      simp only [] at hs' ⊢
+      rw [hin]
+      simp only [createSub] at hs'
+      rw [getSub_append_new] at hs'
+      cases hg : getSub g.ss.subs sid with
+      | some s => rw [hg] at hs'; simp at hs'; subst hs'; exact c2 s hg
+      | none =>
+        rw [hg] at hs'
+        simp only [Option.none_or] at hs'
+        split at hs'
+        · rename_i hid
+          cases hs'
+          obtain ⟨_, f2⟩ := i2 sid (by omega)
+          rw [flow_eq] at f2
+          simp [f2]
+        · cases hs'
+    · simp only [createSub] at hle ⊢
+      obtain ⟨f1, f2⟩ := i2 sid (by omega)
+      refine ⟨?_, ?_⟩
+      · rw [getSub_append_new, f1]
+        have : ¬ g.ss.nextSubId = sid := by omega
+        simp [this]
+      · rw [flow_eq] at f2 ⊢
+        have := hin sid
+        simp only [createSub] at this
+        simp only []; rw [this]; exact f2
+  | deleteSub sid' =>
+    simp only [gstep] at h; cases h
+    unfold deleteSub
+    split
+    · obtain ⟨i1, i2⟩ := hi
+      refine ⟨fun sid => ?_, fun sid hle => ?_⟩
+      · obtain ⟨c1, c2⟩ := i1 sid
+        by_cases hs : sid = sid'
+        · subst hs
+          refine ⟨?_, fun s' hs' => ?_⟩
+          · simp only [inSess] at c1 ⊢
+            rw [notifsOf_filter_ne]; simp only [if_true, List.append_nil]
+            rw [← List.append_assoc, List.map_append] at c1
+            exact chain_prefix _ _ _ c1
+          · simp only [] at hs'; rw [getSub_filter_ne] at hs'; simp at hs'
+        · refine ⟨?_, fun s' hs' => ?_⟩
+          · simp only [inSess] at c1 ⊢; rw [notifsOf_filter_ne]; simp only [hs, if_false]; exact c1
+          · simp only [] at hs' ⊢
+            rw [getSub_filter_ne] at hs'; simp only [hs, if_false] at hs'
+            simp only [inSess]; rw [notifsOf_filter_ne]; simp only [hs, if_false]
+            exact c2 s' hs'
+      · obtain ⟨f1, f2⟩ := i2 sid hle
+        refine ⟨by simp only []; rw [getSub_filter_ne]; split <;> simp [f1], ?_⟩
+        rw [flow_eq] at f2 ⊢
+        simp only [inSess] at f2 ⊢
+        rw [notifsOf_filter_ne]
+        split
+        · simp at f2 ⊢; exact ⟨f2.1, f2.2.1⟩
+        · exact f2
+    · exact hi
+  | setPublishing sid' e =>
+    simp only [gstep] at h; cases h
+    unfold setPublishing
+    split
+    · refine INV_of_frame g _ hi (fun sid => ?_) (fun sid s' hs' => ?_) (fun sid hn => ?_) rfl
+      · simp only [inSess]; rw [notifsOf_map]
+        · intro s; split <;> rfl
+        · intro s; split <;> rfl
+      · simp only [] at hs'
+        rw [getSub_map _ _ (by intro s; split <;> rfl)] at hs'
+        cases hg : getSub g.ss.subs sid with
+        | none => rw [hg] at hs'; cases hs'
+        | some s => rw [hg] at hs'; simp at hs'; subst hs'; exact ⟨s, rfl, by split <;> rfl, by split <;> rfl⟩
+      · simp only []; rw [getSub_map _ _ (by intro s; split <;> rfl), hn]; rfl
+    · exact hi
+  | createItem sid' hd' n q d m sp =>
+    simp only [gstep] at h; cases h
+    unfold createItem
+    split
+    · exact hi
+    · rename_i s hs
+      have hk : s.id = sid' := getSub_id _ _ _ hs
+      have frame : ∀ s2 : Subn, s2.id = s.id → s2.notifs = s.notifs → s2.lastSeq = s.lastSeq →
+          s2.seqNext = s.seqNext → INV { g with ss := { g.ss with subs := updSub g.ss.subs s2 } } := by
+        intro s2 e1 e2 e3 e4
+        refine INV_of_frame g _ hi (fun sid => ?_) (fun sid s' hs' => ?_) (fun sid hn => ?_) rfl
+        · simp only [inSess]; rw [notifsOf_updSub_same _ _ _ _ _ hs e1 e2]
+        · simp only [] at hs'
+          rw [getSub_updSub] at hs'
+          split at hs'
+          · rename_i hsid
+            split at hs'
+            · cases hs'
+              exact ⟨s, by rw [hsid, e1, hk]; exact hs, e3, e4⟩
+            · cases hs'
+          · exact ⟨s', hs', rfl, rfl⟩
+        · simp only []
+          rw [getSub_updSub]
+          split
+          · rename_i hsid
+            have : hasSub g.ss.subs sid = false := (getSub_none_iff _ _).mp hn
+            simp [this]
+          · exact hn
+      simp only []
+      split
+      · exact frame _ rfl rfl rfl rfl
+      · exact frame _ rfl rfl rfl rfl
+  | deleteItem sid' iid =>
+    simp only [gstep] at h; cases h
+    unfold deleteItem
+    split
+    · exact hi
+    · rename_i s hs
+      have hk : s.id = sid' := getSub_id _ _ _ hs
+      have frame : ∀ s2 : Subn, s2.id = s.id → s2.notifs = s.notifs → s2.lastSeq = s.lastSeq →
+          s2.seqNext = s.seqNext → INV { g with ss := { g.ss with subs := updSub g.ss.subs s2 } } := by
+        intro s2 e1 e2 e3 e4
+        refine INV_of_frame g _ hi (fun sid => ?_) (fun sid s' hs' => ?_) (fun sid hn => ?_) rfl
+        · simp only [inSess]; rw [notifsOf_updSub_same _ _ _ _ _ hs e1 e2]
+        · simp only [] at hs'
+          rw [getSub_updSub] at hs'
+          split at hs'
+          · rename_i hsid
+            split at hs'
+            · cases hs'
+              exact ⟨s, by rw [hsid, e1, hk]; exact hs, e3, e4⟩
+            · cases hs'
+          · exact ⟨s', hs', rfl, rfl⟩
+        · simp only []
+          rw [getSub_updSub]
+          split
+          · have : hasSub g.ss.subs sid = false := (getSub_none_iff _ _).mp hn
+            simp [this]
+          · exact hn
+      simp only []
+      split
+      · exact frame _ rfl rfl rfl rfl
+      · exact frame _ rfl rfl rfl rfl
+  | write n v =>
+    simp only [gstep] at h; cases h
+    exact INV_of_frame g _ hi (fun _ => rfl) (fun sid s' hs' => ⟨s', hs', rfl, rfl⟩) (fun _ hn => hn) rfl
+  | timer dt =>
+    simp only [gstep] at h
+    split at h
+    · rename_i ss' ht
+      cases h
+      obtain ⟨i1, i2⟩ := hi
+      have hnx : ss'.nextSubId = g.ss.nextSubId := sessTick_next c true { g.ss with now := g.ss.now + dt } ss' ht
+      refine ⟨fun sid => (sessTick_num c true _ ss' sid _ ht (i1 sid)).1, fun sid hle => ?_⟩
+      obtain ⟨f1, f2⟩ := i2 sid (by rw [← hnx]; exact hle)
+      obtain ⟨q1, q2⟩ := (sessTick_num c true _ ss' sid _ ht (i1 sid)).2 f1
+      refine ⟨q1, ?_⟩
+      rw [flow_eq] at f2 ⊢
+      simp only []; rw [q2]; exact f2
+    · cases h
+  | publish rid acks =>
+    have core : ∀ (ss' : Sess) (r : PubRes) (acc : List Nat), publish c g.ss rid acks = .ok (ss', r) →
+        INV { g with ss := ss', accepted := acc } := by
+      intro ss' r acc hp
+      obtain ⟨i1, i2⟩ := hi
+      have hnx := publish_next c _ _ rid acks r hp
+      refine ⟨fun sid => (publish_num c _ _ rid acks r sid _ hp (i1 sid)).1, fun sid hle => ?_⟩
+      obtain ⟨f1, f2⟩ := i2 sid (by rw [← hnx]; exact hle)
+      obtain ⟨q1, q2⟩ := (publish_num c _ _ rid acks r sid _ hp (i1 sid)).2 f1
+      refine ⟨q1, ?_⟩
+      rw [flow_eq] at f2 ⊢
+      simp only []; rw [q2]; exact f2
+    simp only [gstep] at h
+    split at h
+    · rename_i ss' hp; cases h; exact core ss' _ _ hp
+    · rename_i ss' r hne hp; cases h; exact core ss' r _ hp
+    · cases h
+  | republish sid' seq =>
+    simp only [gstep] at h; cases h
+    unfold republish
+    split
+    · refine INV_of_frame g _ hi (fun sid => ?_) (fun sid s' hs' => ?_) (fun sid hn => ?_) rfl
+      · simp only [inSess]; rw [notifsOf_map]
+        · intro s; split <;> rfl
+        · intro s; split <;> rfl
+      · simp only [] at hs'
+        rw [getSub_map _ _ (by intro s; split <;> rfl)] at hs'
+        cases hg : getSub g.ss.subs sid with
+        | none => rw [hg] at hs'; cases hs'
+        | some s => rw [hg] at hs'; simp at hs'; subst hs'; exact ⟨s, rfl, by split <;> rfl, by split <;> rfl⟩
+      · simp only []; rw [getSub_map _ _ (by intro s; split <;> rfl), hn]; rfl
+    · exact hi
+  | take =>
+    simp only [gstep, takeResponses] at h; cases h
+    obtain ⟨i1, i2⟩ := hi
+    have hflow : ∀ sid, sentMsgs (g.sent ++ g.ss.resps.map fun r => (r.subId, r.msg)) sid ++
+        inSess { g.ss with resps := [] } sid = sentMsgs g.sent sid ++ inSess g.ss sid := by
+      intro sid
+      simp [sentMsgs, respMsgs, inSess, List.filter_append, List.filter_map, Function.comp_def, List.map_map]
+    refine ⟨fun sid => ?_, fun sid hle => ?_⟩
+    · obtain ⟨c1, c2⟩ := i1 sid
+      refine ⟨by simp only []; rw [hflow]; exact c1, fun s hs => ?_⟩
+      simp only [] at hs ⊢
+      rw [hflow]; exact c2 s hs
+    · obtain ⟨f1, f2⟩ := i2 sid hle
+      refine ⟨f1, ?_⟩
+      rw [flow_eq] at f2 ⊢
+      simp only []; rw [hflow]; exact f2
+
+theorem INV_init (nodes : List (Nat × Nat)) : INV (ginit nodes) := by
+  refine ⟨fun sid => ⟨by simp [ginit, init, sentMsgs, inSess, respMsgs, notifsOf, getSub, chain], ?_⟩, fun sid _ => ?_⟩
+  · intro s hs; simp [ginit, init, getSub] at hs
+  · simp [ginit, init, getSub, flow, sentMsgs, respMsgs, notifsOf]
+
+theorem grun_INV (c : Cfg) (maxQ : Nat) (ops : List Op) (g g' : G) (hi : INV g)
+    (h : grun c maxQ g ops = some g') : INV g' := by
+  induction ops generalizing g with
+  | nil => simp only [grun] at h; cases h; exact hi
+  | cons op ops ih =>
+    simp only [grun] at h
+    split at h
+    · rename_i g1 hs; exact ih g1 (gstep_INV c maxQ g g1 op hi hs) h
+    · cases h
+
+/-- **`seq_increasing`, over every history** from the empty session: for every subscription id the
+notification messages handed to the transport carry the sequence numbers 1, 2, 3, … in this order
+(strictly increasing, consecutive), and they continue through the queued responses and the
+subscription's own queue. -/
+theorem seq_increasing (c : Cfg) (maxQ : Nat) (nodes : List (Nat × Nat)) (ops : List Op) (g' : G)
+    (h : grun c maxQ (ginit nodes) ops = some g') (sid : Nat) :
+    chain 0 ((sentMsgs g'.sent sid).map (·.seq)) ∧ chain 0 ((flow g' sid).map (·.seq)) := by
+  obtain ⟨i1, _⟩ := grun_INV c maxQ ops _ g' (INV_init nodes) h
+  obtain ⟨c1, _⟩ := i1 sid
+  refine ⟨?_, by rw [flow_eq]; exact c1⟩
+  rw [List.map_append] at c1
+  exact chain_prefix _ _ _ c1
 
 
 /-! ### items → notification -/
